@@ -6,7 +6,11 @@ import sys, os, subprocess, json, shutil, re, glob
 pid, k = sys.argv[1], sys.argv[2]
 checks = sys.argv[3:] or [pid]
 out = f"/tmp/mut-{pid}-out"
-conf = subprocess.run(["/verif/tools/confirm_mutant.sh", pid, k], capture_output=True, text=True).stdout.strip().splitlines()[-1]
+cached = f"{out}/confirm-m{k}.txt"
+if os.path.exists(cached) and open(cached).read().strip():
+    conf = open(cached).read().strip().splitlines()[-1]
+else:
+    conf = subprocess.run(["/verif/tools/confirm_mutant.sh", pid, k], capture_output=True, text=True).stdout.strip().splitlines()[-1]
 ok = ("demo-without: ok" in conf) and ("demo-with: FAIL" in conf or "demo-with: ---" in conf or "FAIL" in conf.split("demo-with:")[1].split("|")[0]) and ("suite-with: all ok" in conf) and ("build: ok" in conf)
 print(conf)
 if not ok:
